@@ -878,6 +878,17 @@ def check_for_unroll(ctx: Ctx, vf: FuncInfo):
 
 def check_multi_target(ctx: Ctx, rm: FuncInfo):
     role = "a, b = t -> a = t[0]; b = t[1] (same index on both sides)"
+    # every way out of the rewriter is one of the lowerings the rules below know: the node unchanged, the element-wise
+    # assignments from a name, or the temporary followed by element-wise assignments from it
+    for r in q.returns(rm):
+        v = r.value
+        known = (
+            (isinstance(v, ast.Name) and v.id == rm.params[1])
+            or (isinstance(v, (ast.ListComp,)) and pat.t(v.generators[0].iter) == "range(len(node.targets[0].elts))")
+            or (isinstance(v, ast.BinOp) and isinstance(v.op, ast.Add) and isinstance(v.left, ast.List) and len(v.left.elts) == 1 and isinstance(v.right, ast.Name))
+        )
+        if not known:
+            ctx.undecided(rm.short, f"`return {norm(v)[:90]}`: a lowering of the multi-target assignment that the tables do not describe (Python evaluates the whole right-hand side before binding any target)")
     comps = [c for c in ast.walk(rm.node) if isinstance(c, (ast.ListComp, ast.GeneratorExp)) and pat.t(c.generators[0].iter) == "range(len(node.targets[0].elts))"]
     if len(comps) < 1:
         ctx.undecided(rm.short, f"{role}: no comprehension over range(len(node.targets[0].elts))")
